@@ -99,7 +99,55 @@ class Plain:
     _kind = 'plain'
 
 
-_bind(Plain)
+class PlainGS(Plain):
+    """plain __getstate__/__setstate__ (no remote parameter: a remote flag passed to it would be a TypeError)"""
+
+    def __getstate__(self):
+        return dict(self.__dict__)
+
+    def __setstate__(self, st):
+        self.__dict__.update(st)
+
+
+class PlainKW(PlainGS):
+    """**kwargs pass-through override"""
+
+    def __getstate__(self, **kwargs):
+        return super().__getstate__(**kwargs)
+
+
+class PlainReduce(Plain):
+    def __reduce__(self):
+        return (_plain_new, (type(self),), dict(self.__dict__))
+
+
+class PlainReduceEx(Plain):
+    def __reduce_ex__(self, protocol):
+        return (_plain_new, (type(self),), dict(self.__dict__))
+
+
+class PlainNewArgs(Plain):
+    def __new__(cls, *args):
+        if args != ('a', 1) and args != ():
+            raise TypeError('unexpected __new__ arguments %r' % (args,))
+        return object.__new__(cls)
+
+    def __getnewargs__(self):
+        return ('a', 1)
+
+
+class PlainSlots(Plain):
+    __slots__ = ('sl',)
+
+
+def _plain_new(cls):
+    return object.__new__(cls)
+
+
+PLAIN_VARIANTS = {'plain': Plain, 'gs': PlainGS, 'kw': PlainKW, 'reduce': PlainReduce, 'reduce_ex': PlainReduceEx,
+                  'newargs': PlainNewArgs, 'slots': PlainSlots}
+for _c in PLAIN_VARIANTS.values():
+    _bind(_c)
 
 
 # ----------------------------------------------------------------------------------------
@@ -120,9 +168,12 @@ def build_graph(scn):
             o.val, o.w = 'v%d' % i, 'w%d' % i
             objs[i], kinds[i] = o, cls
         elif nd['kind'] == 'plain':
-            o = object.__new__(Plain)
+            pc = PLAIN_VARIANTS[scn.get('pvar', 'plain')]
+            o = object.__new__(pc)
             o.val, o.w = 'v%d' % i, 'w%d' % i
-            objs[i], kinds[i] = o, Plain
+            if pc is PlainSlots:
+                o.sl = 'slot%d' % i
+            objs[i], kinds[i] = o, pc
         else:
             ct = ctype if ctype in ('list', 'tuple', 'dict') else ('list', 'tuple', 'dict')[i % 3]
             kinds[i] = {'list': list, 'tuple': tuple, 'dict': dict}[ct]
@@ -130,6 +181,17 @@ def build_graph(scn):
                 objs[i] = ['v%d' % i]
             elif kinds[i] is dict:
                 objs[i] = {'val': 'v%d' % i}
+    # a tuple on a reference cycle is memoised by pickle only after its elements (the objects inside are met
+    # twice): the model's walk memoises at the first visit, so such a container is built as a list
+    def reaches(a, b, seen):
+        for e in g[a - 1]['ent']:
+            if e['to'] == b or (e['to'] not in seen and not seen.add(e['to']) and reaches(e['to'], b, seen)):
+                return True
+        return False
+    for i in range(1, n + 1):
+        if kinds[i] is tuple and reaches(i, i, set()):
+            kinds[i] = list
+            objs[i] = ['v%d' % i]
     busy = set()
 
     def tup(i):                                   # tuples exist only once their elements do
@@ -229,6 +291,8 @@ def project(top, scn, kinds, patch_paths=()):
         ent = {}
         if hasattr(type(o), '_kind'):
             ent['#'] = type(o)._kind if type(o) is kinds[i] else 'wrongclass:' + type(o).__name__
+            if type(o) is PlainSlots and getattr(o, 'sl', None) != 'slot%d' % i:
+                ent['#'] = 'slotlost'
             for k, v in o.__dict__.items():
                 ent[k] = tok(v)
         elif isinstance(o, (list, tuple)):
@@ -292,6 +356,18 @@ def _opcode_offsets(data):
     return [pos for _, _, pos in pickletools.genops(data)][1:] + [len(data)]
 
 
+def _unframe(data):
+    """The same pickle without FRAME opcodes (a truncated frame is rejected before any opcode is executed;
+    an unframed stream is executed up to the cut)."""
+    out, last = [], 0
+    for op, arg, pos in pickletools.genops(data):
+        if op.name == 'FRAME':
+            out.append(data[last:pos])
+            last = pos + 9
+    out.append(data[last:])
+    return b''.join(out)
+
+
 def _count_events(rp, data):
     """Number of REDUCE/BUILD events of opt-in objects that happen when loading `data` (probe thread)."""
     def job():
@@ -311,6 +387,7 @@ def _count_events(rp, data):
 def cut_for(rp, data, at):
     """Shortest prefix of the stream (cut at an opcode boundary) during whose load exactly `at`
     REDUCE/BUILD events of opt-in objects happen; None if the stream has fewer events."""
+    data = _unframe(data)
     total = _count_events(rp, data)
     if at > total:
         return None
